@@ -363,9 +363,30 @@ def r3_rtu_sizes(ck, cx):
             okf = False
     ck.ob('R3', f.qn, 'rtuFrameSize = data[pos] + pos + 3 (count byte, counted bytes, CRC)', okf, detail='rtuFrameSize-shape', loc=cx.floc(f))
     base = cx.method(cx.idx.cls('pymodbus.pdu.ModbusPDU'), 'calculateRtuFrameSize')
-    txt = U(base.node)
-    ck.ob('R3', base.qn, 'base size function uses the constant, else rtuFrameSize(buffer, pos)',
-          'cls._rtu_frame_size' in txt and 'rtuFrameSize(%s, cls._rtu_byte_count_pos)' % base.params[1] in txt, detail='base-size-shape', loc=cx.floc(base))
+    # decided on the paths: a class that declares the constant gets the constant; otherwise one that declares the position gets
+    # rtuFrameSize(buffer, position); nothing else is returned
+    shapes, okb = set(), True
+    for p in cx.enum(base, base.cls, max_depth=0):
+        if p.exit and p.exit[0] == 'exc':
+            continue
+        annotate(p, heap=False)
+        r = ret_expr(p)
+        has = {}
+        for e in p.ev:
+            t = getattr(e, '_sub', None)
+            if e.kind == 'cond' and isinstance(t, ast.Call) and callee_name(t) == 'hasattr' and len(t.args) == 2 and isinstance(t.args[1], ast.Constant):
+                has[t.args[1].value] = e.a
+        rt = U(r).replace(' ', '') if r is not None else None
+        if rt == 'cls._rtu_frame_size':
+            shapes.add('const')
+            okb = okb and has.get('_rtu_frame_size') is True
+        elif rt == 'rtuFrameSize(%s,cls._rtu_byte_count_pos)' % base.params[1]:
+            shapes.add('pos')
+            okb = okb and has.get('_rtu_byte_count_pos') is True and has.get('_rtu_frame_size') is False
+        else:
+            okb = False
+    ck.ob('R3', base.qn, 'base size function uses the constant, else rtuFrameSize(buffer, pos)', okb and shapes == {'const', 'pos'},
+          detail='base-size-shape', loc=cx.floc(base))
 
 
 def r3_lookup_pdu_class(ck, cx, rule='R3', decoders=('ServerDecoder', 'ClientDecoder')):
